@@ -29,6 +29,9 @@ def _bg_text(org, o, k, param=False):
     return "%s %s" % (org, num)
 
 
+from .gen import keywords as _keywords
+
+
 class Rendered(object):
     def __init__(self, prog, flat):
         self.prog = prog
@@ -37,6 +40,7 @@ class Rendered(object):
         self.by_loc = {}           # (fidx, line) -> element id
         self.line_of = {}          # element id -> line
         self._next = iter(flat["elems"])
+        self._item = 0             # ordinal of the scenario / outline (document order, as in gen.flatten)
         for fi, f in enumerate(prog["features"]):
             self._feature(fi, f)
 
@@ -61,12 +65,16 @@ class Rendered(object):
             self.line_of[e["id"]] = line
 
         pbg = bool(f.get("pbg"))
+        typed = int(self.prog.get("typed") or 0)        # prog["typed"]: steps written with all five keywords
+
+        def kw(section, n, k):
+            return _keywords(typed, section, n, self._item if section == 2 else 0)[k][0] + " "
         tagline(f["tags"], "")
         reg(self._take("feature"), emit("Feature: F%d" % fi))
         if f.get("bg") is not None:
             emit("  Background:")
             for k, s in enumerate(f["bg"]):
-                emit("    Given " + _bg_text("fbg", s["o"], k + 1, pbg))
+                emit("    " + kw(0, len(f["bg"]), k) + _bg_text("fbg", s["o"], k + 1, pbg))
 
         def items(lst, ind, rbg=None):
             for it in lst:
@@ -77,17 +85,19 @@ class Rendered(object):
                     if it.get("bg") is not None:
                         emit(ind + "  Background:")
                         for k, s in enumerate(it["bg"]):
-                            emit(ind + "    Given " + _bg_text("rbg", s["o"], k + 1, pbg))
+                            emit(ind + "    " + kw(1, len(it["bg"]), k) + _bg_text("rbg", s["o"], k + 1, pbg))
                     items(it["items"], ind + "  ", it.get("bg"))
                 elif it["kind"] == "scenario":
+                    self._item += 1
                     emit("")
                     tagline(it["tags"], ind)
                     e = self._take("scenario")
                     # prog["dupnames"]: all scenarios share one name (selection must go by location, never by name)
                     reg(e, emit(ind + ("Scenario: S" if self.prog.get("dupnames") else "Scenario: S%d" % e["id"])))
                     for k, s in enumerate(it["steps"]):
-                        emit(ind + "  Given " + _own_text(s["o"], k + 1))
+                        emit(ind + "  " + kw(2, len(it["steps"]), k) + _own_text(s["o"], k + 1))
                 else:
+                    self._item += 1
                     emit("")
                     tagline(list(it["tags"]) + (["x<c1>"] if it.get("ptag") else []) + (["t<row.index>"] if it.get("rtag") else []), ind)
                     e = self._take("outline")
@@ -98,9 +108,9 @@ class Rendered(object):
                         # template (no placeholder: the builder may treat such a step differently), the column stays
                         texts = {_own_text(row[k]["o"], k + 1) for b in it["blocks"] for row in b["rows"]}
                         if self.prog.get("literal_steps") and len(texts) == 1:
-                            emit(ind + "  Given " + texts.pop())
+                            emit(ind + "  " + kw(2, nst, k) + texts.pop())
                         else:
-                            emit(ind + "  Given <c%d>" % (k + 1))
+                            emit(ind + "  " + kw(2, nst, k) + "<c%d>" % (k + 1))
                     extra = []      # columns for parametrized background steps
                     if pbg:
                         extra = [("b%d" % (k + 1), "%d" % (k + 1)) for k in range(len(f.get("bg") or []))] + \
